@@ -359,7 +359,7 @@ example :
 
 /-- (a): a state with a waiting hash fetcher is reachable (after the head probe was sent) -/
 example : ∃ s r, Reach .fixed s ∧ s.run = some r ∧ r.hf.waiting = true :=
-  ⟨_, _, .step (.sync 1 1) (.step (.register 1) .init), rfl, rfl⟩
+  ⟨_, _, .step (.sync 1 1) (.step (.register 1) (.init 0)), rfl, rfl⟩
 
 /-- (b): a reachable state with a synchronisation running, two requests in flight at silent peers, measure 233; 233 steps of
     silence with no request handed out are a maximal run (nobody is idle) -/
@@ -381,7 +381,7 @@ theorem reach_exec {cfg : Cfg} {s : State} (h : Reach cfg s) (es : List Event) :
 set_option maxRecDepth 100000 in
 /-- …so the theorem applies: 23.3 s of silence end that synchronisation -/
 example : (silentRun silentState (List.replicate 233 [])).run = none :=
-  sync_terminates_under_silence (reach_exec .init _) _ (by decide) (by decide)
+  sync_terminates_under_silence (reach_exec (.init 0) _) _ (by decide) (by decide)
 
 /-- (c): a state with no synchronisation and something left in every channel and in the queue… -/
 def leftovers : State :=
